@@ -108,11 +108,13 @@ def extra(ctx):
     n_calls = 0
     for h, hr in zip(hs, hres):
         own = dict(bundled)          # temporaries each routine writes, transitively
+        rets = {}
         for st_, r in zip(h["steps"], hr.get("steps", [])):
             if not r.get("ok"):
                 bad.append((st_, r.get("exc"), r.get("msg")))
                 continue
             if st_["entry"] == "sub":
+                rets[st_["name"]] = (not st_["ret"].startswith("u"), int(re.search(r"\d+", st_["ret"]).group()))
                 t = set(re.findall(r'SETL\("(h_tmp\d+)"', r["text"]))
                 for c_ in set(re.findall(r"hex_(\w+)\(", r["text"])):
                     t |= own.get(c_, set())
@@ -123,6 +125,13 @@ def extra(ctx):
                 except iltext.ILParseError as e:
                     bad.append((st_, "malformed", str(e)))
                     continue
+                # "the caller receives the return value converted to the DECLARED return type": the read of ret_val that follows a call
+                # of a registered routine must have that routine's width and signedness
+                for m_ in re.finditer(r"hex_(gen_sub_\d+)\([^;]*;\s*(?://[^\n]*\n\s*)*RzILOpEffect \*\w+ = SETL\(\"h_tmp\d+\", (SIGNED|UNSIGNED)\((\d+), VARL\(\"ret_val\"\)\)", r["text"]):
+                    decl = rets.get(m_.group(1))
+                    if decl and (decl[0] != (m_.group(2) == "SIGNED") or decl[1] != int(m_.group(3))):
+                        bad.append((st_, "return value not converted to the declared return type",
+                                    f"{m_.group(1)} is declared {'int' if decl[0] else 'uint'}{decl[1]}_t but its result is read as {m_.group(2)}({m_.group(3)}, ret_val)"))
                 mine = set(re.findall(r'"(h_tmp\d+)"', r["text"]))
                 for c_ in set(re.findall(r"hex_(\w+)\(", r["text"])):
                     n_calls += 1
